@@ -120,7 +120,7 @@ def judge_jobs(ctx: Ctx, jobs, kind="c05"):
             c = ln["c"]
             vk = c.get("kind", "str")
             if vk == "str":
-                ctx.violation(f"{r['clause']}:{c['m']}:{c['form'] or '-'}", r["clause"], case, kind="hdr")
+                ctx.violation(f"{r['clause']}:{c['m']}:{c['form'] or '-'}" + ("/" + c["carrier"] if c.get("carrier") else ""), r["clause"], case, kind="hdr")
             else:   # value kinds other than str: own clause prefix
                 ctx.violation(f"Kind{r['clause']}:{c['m']}:{c['form'] or '-'}:{vk}", "Kind" + r["clause"], case, kind="hdr")
         else:
@@ -337,6 +337,15 @@ def run(ctx: Ctx):
     for n, tr in enumerate(trans):
         c = dict(tr["c"], kind=kinds[(n // 2) % len(kinds)])
         jobs.append(("hdr", {"pre": tr["pre"], "c": c, "target": "Headers" if n % 2 else "Response.headers"}))
+    ncar = 0
+    for n, tr in enumerate(trans):       # the same transitions with the argument carried by the other documented types
+        cs = R.carriers_for(tr["c"])
+        if cs and (not q or ncar < 4000):
+            for j, car in enumerate(cs if not q else [cs[n % len(cs)]]):
+                c = dict(tr["c"], kind=kinds[(n + j) % len(kinds)], carrier=car)
+                jobs.append(("hdr", {"pre": tr["pre"], "c": c, "target": "Headers" if (n + j) % 2 else "Response.headers"}))
+                ncar += 1
+    ctx.notes["carrier_transitions"] = ncar
     for spec in R.api_specs(rng, 4 if q else 10):
         jobs.append(("api", spec))
     for row in table:
